@@ -56,6 +56,7 @@ type Config struct {
 	NondetCommit bool    `json:"nondet_commit,omitempty"`
 	Workers   int        `json:"workers,omitempty"`
 	HipGroups int        `json:"hip_groups,omitempty"` // >0: keys collide at the first level of the DEFAULT digester (see Callbacks.Groups)
+	LedgerAPI bool       `json:"ledger_api,omitempty"` // the storage reaches the registers through atree.LedgerBaseStorage
 	AllowF4   bool       `json:"allow_known_f4,omitempty"` // replay of known finding F4 only: do not exclude it by construction
 	KeepGlobals bool     `json:"-"` // C16: globals were set once before the goroutines started
 }
@@ -183,6 +184,7 @@ func NewEngine(cfg Config, or Oracles) (*Engine, error) {
 		keyCache: map[uint64]MV{},
 		DebugVerify: os.Getenv("VERIF_DEBUG_VERIFY") != "",
 	}
+	e.L.ViaLedgerAPI = cfg.LedgerAPI
 	e.St = NewStorage(e.L)
 	e.MaxArrElem = atree.MaxInlineArrayElementSize()
 	e.MaxMapElem = atree.MaxInlineMapElementSize()
